@@ -75,10 +75,9 @@ func (s *kState) FindView(h uint64, r uint32, reason string) (*tmconsensus.Versi
 		if r < cr {
 			return nil, 0, ViewBeforeCommitting
 		}
-	}
 
-	if h < s.Committing.Height {
-		return nil, 0, ViewBeforeCommitting
+		// Same height as the committing view but a later round.
+		return nil, 0, ViewWrongCommit
 	}
 
 	if h > s.Voting.Height {
@@ -86,10 +85,11 @@ func (s *kState) FindView(h uint64, r uint32, reason string) (*tmconsensus.Versi
 		return nil, 0, ViewFuture
 	}
 
-	panic(fmt.Errorf(
-		"TODO: unhandled attempt to find view (reason: %s, request: %d/%d, voting view: %d/%d, committing view: %d/%d)",
-		reason, h, r, s.Voting.Height, s.Voting.Round, s.Committing.Height, s.Committing.Round,
-	))
+	// Everything else is below the voting height and is neither
+	// the committing height nor the voting height,
+	// so it is older than any view we hold.
+	// This includes heights below the initial height before the first commit.
+	return nil, 0, ViewBeforeCommitting
 }
 
 // MarkCommittingViewUpdated increments the version of s's committing view,
